@@ -196,7 +196,7 @@ def main(args):
     if args.replay:
         with open(args.replay) as f:
             rp = json.load(f)
-        hs = [] if rp["case"].get("server") else [(rp["case"]["family"], rp["case"]["history"])]
+        hs = [] if (rp["case"].get("server") or rp["case"].get("glob")) else [(rp["case"]["family"], rp["case"]["history"])]
     else:
         hs = gen(run)
     built = [to_harness(i, h) for i, (_, h) in enumerate(hs)]
@@ -207,6 +207,15 @@ def main(args):
         run.count(vf.digest(h), loads >= 2 or (loads >= 1 and edits_before_load))
         for sig, what, _ in evaluate(h, disks, res):
             run.diverge(sig, what, {"family": fam, "history": h, "harness_case": hc}, res)
+    # ---- histories in which the set of files changes under a glob (IncludeGlobHist.tla)
+    if not args.replay or rp["case"].get("glob"):
+        ghs = [rp["case"]["history"]] if args.replay else glob_histories(run)
+        gres = run.harness("include", [glob_to_harness(i, h) for i, h in enumerate(ghs)])
+        for h, res in zip(ghs, gres):
+            run.count(vf.digest(["glob", h]), sum(1 for st in h[1:] if st["op"] == "load") >= 2)
+            for sig, what in glob_evaluate(h, res):
+                run.diverge(sig, what, {"family": "glob", "glob": True, "history": h}, res)
+        run.extra["glob_histories"] = len(ghs)
     # ---- server level: open / change / save / close histories, with and without a workspace root
     srv = [] if args.replay else gen_server(run)
     if args.replay and rp["case"].get("server"):
@@ -235,8 +244,78 @@ def main(args):
     run.finish(confirm=lambda d: confirm(run, d))
 
 
+def gcfg(maxops, mech, emit):
+    return "CONSTANTS MaxOps = %d Mech = \"%s\"\nSPECIFICATION Spec\nINVARIANTS NoStaleExpansion%s\nCHECK_DEADLOCK FALSE\n" % (maxops, mech, " Emit" if emit else "")
+
+
+def glob_histories(run):
+    thorough = run.tier == "thorough"
+    bad = run.tlc("IncludeGlobHist", gcfg(4, "matched-only", False), workers=4, allow_violation=True, collect_json=False)
+    if bad.ok or "Invariant NoStaleExpansion is violated" not in bad.stdout:
+        vf.die_tooling("IncludeGlobHist.tla: forgetting a remembered expansion only for matched files no longer violates NoStaleExpansion — the model is vacuous")
+    r = run.tlc("IncludeGlobHist", gcfg(5 if not thorough else 6, "sound", True), workers=8, timeout=2400)
+    hs = [c["h"] for c in r.json]
+    cap = 4000 if not thorough else 60000
+    if len(hs) > cap:
+        hs = run.rng.sample(hs, cap)
+    return hs
+
+
+GNAMES = {1: "f1.journal", 2: "f2.journal", 3: "sub/f3.journal", 4: "sub/f4.journal"}
+
+
+def glob_text(f, ver):
+    inc = {1: "include sub/*.journal\ninclude f2.journal\n", 2: "include sub/*.journal\n"}.get(f, "")
+    return "%s\n2024-01-0%d file %d version %d\n    assets:cash  %d\n    equity:open\n" % (inc, f, f, ver, f)
+
+
+def glob_to_harness(idx, h):
+    present = h[0]["present"]
+    files = {GNAMES[1]: glob_text(1, 1), GNAMES[2]: glob_text(2, 1), "sub/.keep": ""}
+    for f in present:
+        files[GNAMES[f]] = glob_text(f, 1)
+    ops = []
+    for st in h[1:]:
+        if st["op"] == "load":
+            ops.append({"op": "load", "file": GNAMES[1]})
+        elif st["op"] in ("create", "edit"):
+            ops.append({"op": "write", "file": GNAMES[st["file"]], "invalidate": True, "content": glob_text(st["file"], st["ver"])})
+        elif st["op"] == "remove":
+            ops.append({"op": "remove", "file": GNAMES[st["file"]], "invalidate": True})
+        elif st["op"] == "clear":
+            ops.append({"op": "clear"})
+    return {"id": str(idx), "files": files, "fresh": True, "depth": 0, "size": 0, "ops": ops}
+
+
+def glob_evaluate(h, res):
+    if "panic" in res:
+        return [("panic", "loader panicked: " + res["panic"])]
+    for k, (st, step) in enumerate(zip(h[1:], res["steps"])):
+        if st["op"] != "load":
+            continue
+        sh, fr = step["shared"], step["fresh"]
+        want = sorted([GNAMES[2]] + [GNAMES[f] for f in st["expect"]])
+        if sorted(fr["files"]) != want:
+            return [("spec:glob-files", "step %d: a fresh loader loads %s, the contract says %s" % (k + 1, sorted(fr["files"]), want))]
+        a, b = canon(sh), canon(fr)
+        if a != b:
+            if a["files"] != b["files"]:
+                lost = sorted(set(b["files"]) - set(a["files"]))
+                sig = "glob:shared-loses-files" if lost else "glob:shared-extra-files"
+            elif a["content"] != b["content"]:
+                sig = "glob:shared-content-stale"
+            else:
+                sig = "glob:shared-differs"
+            return [(sig, "step %d load after %s: shared loader files %s, fresh loader files %s (files in sub/ now: %s)" % (
+                k + 1, [(x["op"], x.get("file")) for x in h[1:k + 1]], a["files"], b["files"], st["expect"]))]
+    return []
+
+
 def confirm(run, d):
     h = d["case"]["history"]
+    if d["case"].get("glob"):
+        res = run.harness("include", [glob_to_harness(0, h)])[0]
+        return any(sig == d["sig"] for sig, _ in glob_evaluate(h, res))
     if d["case"].get("server"):
         res = run.harness("srvinclude", [srv_to_harness(0, h, d["case"]["workspace"])])[0]
         return any(sig == d["sig"] for sig, _, _ in srv_evaluate(h, res))
